@@ -15,6 +15,7 @@ import RdfModel.Driver.Ttl
 import RdfModel.Driver.TtlDoc
 import RdfModel.Driver.Xsd
 import RdfModel.Driver.IRI
+import RdfModel.Driver.JsonLd
 open RdfModel
 
 def dispatch (line : String) : String :=
@@ -28,6 +29,7 @@ def dispatch (line : String) : String :=
         else if comp = "ds" then Driver.Dataset.handle op args
         else if comp = "desc" then Driver.Description.handle op args
         else if comp = "pm" then Driver.Prefix.handle op args
+        else if comp = "jl" then Driver.JsonLd.handle op args
         else if comp = "rj" then Driver.RdfJson.handle op args
         else if comp = "canon" then Driver.Canon.handle op args
         else if comp = "ttl" then Driver.Ttl.handle op args
